@@ -88,6 +88,9 @@ type Scenario struct {
 
 	Producers   []Producer `json:"producers,omitempty"`
 	WriteStalls []int      `json:"write_stalls_us,omitempty"`
+	// PartialWrite: when a stalled Write runs into its deadline, this many bytes (mod the size
+	// of the write) were accepted before the timeout is reported (0 = none)
+	PartialWrite int `json:"partial_write,omitempty"`
 
 	// C07/C08
 	Direct []Frame `json:"direct,omitempty"` // byte strings handed straight to the decoder entry points
